@@ -100,6 +100,40 @@ def gen_iv_case(rng):
     return {"indict": ind, "flags": flags, "name": name, "order": order, "marker": marker, "pairs": pairs, "vals": vals}
 
 
+def basic_fails(system, hs, mk, r):
+    """kinds, keys, symbol closure, propagator discipline and cover of one analysis result (the part of the probe that the
+    replay re-evaluates); returns (key, what) pairs"""
+    offs, n = U.offsets(system)
+    names = [U.var_name(system, gi, mk) for gi in range(n)]
+    fails, allv = [], []
+    for so, tab in zip(r["solvers"], r["syms"]):
+        kind = so.get("solver", "")
+        if not (kind == "analytical" or kind == "numeric" or re.match(r"^numeric-(implicit|explicit|warning)$", kind)):
+            fails.append(("kind", "solver kind %r" % kind))
+        sv = so.get("state_variables", [])
+        allv += sv
+        if sorted(so.get("update_expressions", {})) != sorted(sv) or sorted(so.get("initial_values", {})) != sorted(sv):
+            fails.append(("keys", "%s: update_expressions %s / initial_values %s do not match state_variables %s" % (kind, sorted(so.get("update_expressions", {})), sorted(so.get("initial_values", {})), sorted(sv))))
+        allowed = set(names) | {hs, "t"} | set(system["params"]) | {"x0_iv"} | set(so.get("propagators", {}))
+        for key in ("update_expressions", "propagators", "initial_values"):
+            if key in tab:
+                bad = set(tab[key]["all"]) - allowed
+                if bad:
+                    fails.append(("closure", "%s of the %s solver mention unknown symbols %s (time-step symbol %s, marker %s)" % (key, kind, sorted(bad), hs, mk)))
+        if "propagators" in tab:
+            used = set(x for x in tab["update_expressions"]["all"] if x.startswith("__P__"))
+            if not used <= set(so["propagators"]):
+                fails.append(("propagator", "propagator symbols used but not defined: %s" % sorted(used - set(so["propagators"]))))
+            for pk, fs in tab["propagators"]["per"].items():
+                if set(fs) & (set(names) | {"t"}):
+                    fails.append(("propagator", "propagator %s depends on state or time: %s" % (pk, fs)))
+                if not re.match(r"^__P__.+__.+$", pk):
+                    fails.append(("propagator", "propagator key %r" % pk))
+    if sorted(allv) != sorted(names):
+        fails.append(("cover", "state variables %s, expected %s (marker %s)" % (sorted(allv), sorted(names), mk)))
+    return fails
+
+
 def run(ctx):
     rng = random.Random(ctx["seed"] * 8009 + 8)
     quick = ctx["tier"] == "quick"
@@ -190,12 +224,6 @@ def run(ctx):
             dist["solvers_checked"] += 1
             kind = so.get("solver", "")
             dist["solver_kinds"][kind] = dist["solver_kinds"].get(kind, 0) + 1
-            if not (kind == "analytical" or kind == "numeric" or re.match(r"^numeric-(implicit|explicit|warning)$", kind)):
-                fails.append(("kind", "solver kind %r" % kind))
-            sv = so.get("state_variables", [])
-            allv += sv
-            if sorted(so.get("update_expressions", {})) != sorted(sv) or sorted(so.get("initial_values", {})) != sorted(sv):
-                fails.append(("keys", "%s: update_expressions %s / initial_values %s do not match state_variables %s" % (kind, sorted(so.get("update_expressions", {})), sorted(so.get("initial_values", {})), sv)))
             # initial values are the user's
             for e, o in zip(s["entries"], offs):
                 for d in range(e["order"]):
@@ -209,22 +237,6 @@ def run(ctx):
                             toks = set(re.findall(r"[A-Za-z_][A-Za-z_0-9]*", want))
                             if not toks <= set(tab["initial_values"]["per"].get(nm, [])):
                                 fails.append(("iv", "initial value of %s is %r, user supplied %r" % (nm, so["initial_values"][nm], want)))
-            # closure of symbols
-            allowed = set(names) | {hs, "t"} | set(s["params"]) | {"x0_iv"} | set(so.get("propagators", {}))
-            for key in ("update_expressions", "propagators", "initial_values"):
-                if key in tab:
-                    bad = set(tab[key]["all"]) - allowed
-                    if bad:
-                        fails.append(("closure", "%s of the %s solver mention unknown symbols %s (time-step symbol %s, marker %s)" % (key, kind, sorted(bad), hs, mk)))
-            if "propagators" in tab:
-                used = set(x for x in tab["update_expressions"]["all"] if x.startswith("__P__"))
-                if not used <= set(so["propagators"]):
-                    fails.append(("propagator", "propagator symbols used but not defined: %s" % sorted(used - set(so["propagators"]))))
-                for pk, fs in tab["propagators"]["per"].items():
-                    if set(fs) & (set(names) | {"t"}):
-                        fails.append(("propagator", "propagator %s depends on state or time: %s" % (pk, fs)))
-                    if not re.match(r"^__P__.+__.+$", pk):
-                        fails.append(("propagator", "propagator key %r" % pk))
             # parameters
             supplied = list((t["indict"].get("parameters") or {}).keys())
             if "parameters" in t["indict"]:
@@ -252,10 +264,9 @@ def run(ctx):
                 symtab = C.clist(["(%s, %s)" % (cstr(key), C.clist([cstr(x) for x in tab[key]["all"]])) for key in ("update_expressions", "propagators", "initial_values") if key in tab])
                 coq.append("((%s, %s), %s)" % (symtab, C.clist([cstr(p) for p in supplied]), C.clist([cstr(p) for p in listed])))
                 info.append({"indict": t["indict"], "solver": kind, "listed": listed})
-        if sorted(allv) != sorted(names):
-            fails.append(("cover", "state variables %s, expected %s (marker %s)" % (sorted(allv), sorted(names), mk)))
+        fails += basic_fails(s, hs, mk, r)
         for key, what in fails:
-            probe_failures.append({"key": "%s: %s" % (key, C.stable_hash(t["indict"])), "what": what + " | input %s" % t["indict"], "replay": {"task": t}})
+            probe_failures.append({"key": "%s: %s" % (key, C.stable_hash(t["indict"])), "what": what + " | input %s" % t["indict"], "replay": {"task": t, "meta": {"system": s, "hs": hs, "mk": mk}}})
         nontriv.add(C.stable_hash(t["indict"]))
         if len(samples) < 3 and mode != "absent":
             samples.append({"indict": t["indict"], "solvers": r["solvers"]})
@@ -335,6 +346,10 @@ def replay(payload):
         r = C.run_tasks([dict(t, api_timeout=120, timeout=200)], timeout=200)[0]
     if r.get("api") != "Ok":
         return True, "analysis no longer succeeds (%s)" % r.get("api")
+    if rp.get("meta"):
+        bf = basic_fails(rp["meta"]["system"], rp["meta"]["hs"], rp["meta"]["mk"], r)
+        if bf:
+            return False, "%s" % bf[:3]
     if "parameters" not in t["indict"]:
         return True, "no parameters block"
     for so, tab in zip(r["solvers"], r["syms"]):
